@@ -529,9 +529,11 @@ class SimClock:
     def __init__(self, start=1_700_000_000.0):
         self.t = float(start)
         self.reads = 0
+        self.advanced = 0.0       # simulated seconds covered (|jumps| summed)
 
     def jump(self, delta):
         self.t += delta
+        self.advanced += abs(delta)
 
     def time(self):
         self.reads += 1
